@@ -30,6 +30,7 @@
 #include <dispenso/detail/math.h>
 #include <dispenso/detail/per_thread_info.h>
 #include <dispenso/detail/thread_pool_wake.h>
+#include <dispenso/detail/verif_hooks.h>
 #include <dispenso/mpmc_ring_buffer.h>
 #include <dispenso/once_function.h>
 #include <dispenso/platform.h>
@@ -394,6 +395,7 @@ class DISPENSO_CACHELINE_ALIGNED ThreadPool {
       std::abort();
 #endif
     }
+    DISPENSO_VERIF_HOOK("pool.push.central", this, 1, 0);
     // Mark queue as possibly-non-empty so spinning workers will try_dequeue.
     centralQueueNonEmpty_.store(true, std::memory_order_relaxed);
   }
@@ -577,10 +579,12 @@ DISPENSO_INLINE bool ThreadPool::shouldRunInline() {
 template <bool kPlaced, typename F>
 inline void ThreadPool::forceEnqueue(F&& f, moodycamel::ProducerToken* token) {
   if (!numThreads_.load(std::memory_order_relaxed)) {
+    DISPENSO_VERIF_HOOK("pool.inline0", this, 0, 0);
     f();
     return;
   }
   workRemaining_.fetch_add(1, std::memory_order_release);
+  DISPENSO_VERIF_HOOK("pool.count", this, 1, 0);
   if (kPlaced) {
     scheduleImplPlaced({std::forward<F>(f)}, token);
   } else {
@@ -592,6 +596,7 @@ template <typename F>
 DISPENSO_REQUIRES(OnceCallableFunc<F>)
 inline void ThreadPool::schedule(F&& f) {
   if (shouldRunInline()) {
+    DISPENSO_VERIF_HOOK("pool.inline", this, 0, 0);
     f();
   } else {
     schedule(std::forward<F>(f), ForceQueuingTag());
@@ -609,6 +614,7 @@ inline void ThreadPool::schedule(F&& f, ForceQueuingTag) {
 template <typename F>
 inline void ThreadPool::schedule(moodycamel::ProducerToken& token, F&& f) {
   if (shouldRunInline()) {
+    DISPENSO_VERIF_HOOK("pool.inline", this, 0, 0);
     f();
   } else {
     schedule(token, std::forward<F>(f), ForceQueuingTag());
@@ -624,6 +630,7 @@ template <typename F>
 DISPENSO_REQUIRES(OnceCallableFunc<F>)
 inline void ThreadPool::schedulePlaced(F&& f) {
   if (shouldRunInline()) {
+    DISPENSO_VERIF_HOOK("pool.inline", this, 0, 0);
     f();
   } else {
     schedulePlaced(std::forward<F>(f), ForceQueuingTag());
@@ -641,6 +648,7 @@ inline void ThreadPool::schedulePlaced(F&& f, ForceQueuingTag) {
 template <typename F>
 inline void ThreadPool::schedulePlaced(moodycamel::ProducerToken& token, F&& f) {
   if (shouldRunInline()) {
+    DISPENSO_VERIF_HOOK("pool.inline", this, 0, 0);
     f();
   } else {
     schedulePlaced(token, std::forward<F>(f), ForceQueuingTag());
@@ -688,6 +696,7 @@ DISPENSO_INLINE void ThreadPool::scheduleImplPlaced(
         size_t stealIdx = static_cast<size_t>(wokeThread) / stealRingSharing_;
         if (stealIdx < numStealRings_.load(std::memory_order_relaxed) &&
             stealRings_[stealIdx].try_push(std::move(task))) {
+          DISPENSO_VERIF_HOOK("pool.push.steal", this, 1, stealIdx);
           if (stealIdx < kMaxStealRings) {
             stealRingsWithWork_.fetch_or(uint64_t{1} << stealIdx, std::memory_order_release);
           }
@@ -709,6 +718,7 @@ inline bool ThreadPool::tryExecuteNext() {
   bool dequeued = work_.try_dequeue(next);
   DISPENSO_TSAN_ANNOTATE_IGNORE_WRITES_END();
   if (dequeued) {
+    DISPENSO_VERIF_HOOK("pool.take.central", this, 0, 0);
     executeNext(std::move(next));
     return true;
   }
@@ -718,6 +728,7 @@ inline bool ThreadPool::tryExecuteNext() {
 inline bool ThreadPool::tryExecuteNextFromProducerToken(moodycamel::ProducerToken& token) {
   OnceFunction next;
   if (work_.try_dequeue_from_producer(token, next)) {
+    DISPENSO_VERIF_HOOK("pool.take.central", this, 0, 0);
     executeNext(std::move(next));
     return true;
   }
@@ -736,6 +747,7 @@ inline bool ThreadPool::tryExecuteNextFromRings(size_t& startRing) {
     size_t idx = (startRing + i) % n;
     if (rings_[idx].try_pop(task)) {
       startRing = idx;
+      DISPENSO_VERIF_HOOK("pool.take.ring", this, 0, idx);
       executeNext(std::move(task));
       return true;
     }
@@ -747,6 +759,7 @@ inline bool ThreadPool::tryExecuteNextFromRings(size_t& startRing) {
 inline void ThreadPool::executeNext(OnceFunction next) {
   next();
   workRemaining_.fetch_add(-1, std::memory_order_relaxed);
+  DISPENSO_VERIF_HOOK("pool.count", this, -1, 0);
 }
 
 DISPENSO_INLINE bool ThreadPool::tryFindAndExecuteWork(
@@ -761,6 +774,7 @@ DISPENSO_INLINE bool ThreadPool::tryFindAndExecuteWork(
   if (preferRing) {
     bool fromRing = myRing.try_pop(task);
     if (fromRing) {
+      DISPENSO_VERIF_HOOK("pool.take.ring", this, 1, detail::PerPoolPerThreadInfo::ringIndex(this));
       task();
       return true;
     }
@@ -770,6 +784,7 @@ DISPENSO_INLINE bool ThreadPool::tryFindAndExecuteWork(
       DISPENSO_TSAN_ANNOTATE_IGNORE_WRITES_END();
       if (got) {
         preferRing = false;
+        DISPENSO_VERIF_HOOK("pool.take.central", this, 1, 0);
         task();
         return true;
       }
@@ -777,6 +792,7 @@ DISPENSO_INLINE bool ThreadPool::tryFindAndExecuteWork(
       centralQueueNonEmpty_.store(false, std::memory_order_relaxed);
     }
     if (!myStealRing.empty() && myStealRing.try_pop(task)) {
+      DISPENSO_VERIF_HOOK("pool.take.steal", this, 1, myStealIdx);
       task();
       return true;
     }
@@ -789,6 +805,7 @@ DISPENSO_INLINE bool ThreadPool::tryFindAndExecuteWork(
         if (mask != 0) {
           int target = detail::countTrailingZeros(mask);
           if (stealRings_[static_cast<size_t>(target)].try_pop(task)) {
+            DISPENSO_VERIF_HOOK("pool.take.steal", this, 1, target);
             task();
             return true;
           }
@@ -802,6 +819,7 @@ DISPENSO_INLINE bool ThreadPool::tryFindAndExecuteWork(
       bool got = work_.try_dequeue(ctoken, task);
       DISPENSO_TSAN_ANNOTATE_IGNORE_WRITES_END();
       if (got) {
+        DISPENSO_VERIF_HOOK("pool.take.central", this, 1, 0);
         task();
         return true;
       }
@@ -810,6 +828,7 @@ DISPENSO_INLINE bool ThreadPool::tryFindAndExecuteWork(
     bool fromRing = myRing.try_pop(task);
     if (fromRing) {
       preferRing = true;
+      DISPENSO_VERIF_HOOK("pool.take.ring", this, 1, detail::PerPoolPerThreadInfo::ringIndex(this));
       task();
       return true;
     }
@@ -844,10 +863,14 @@ DISPENSO_INLINE void ThreadPool::scheduleBulkToRingsFastPath(
       };
       if (!rings_[ring].try_push(std::move(wrapped))) {
         enqueueToCentralQueue(std::move(wrapped), fallbackToken);
+      } else {
+        DISPENSO_VERIF_HOOK("pool.push.ring", this, 1, ring);
       }
     } else {
       if (!rings_[ring].try_push(std::move(task))) {
         enqueueToCentralQueue(std::move(task), fallbackToken);
+      } else {
+        DISPENSO_VERIF_HOOK("pool.push.ring", this, 1, ring);
       }
     }
   }
@@ -856,6 +879,8 @@ DISPENSO_INLINE void ThreadPool::scheduleBulkToRingsFastPath(
     OnceFunction task = gen(ring);
     if (!rings_[ring].try_push(std::move(task))) {
       enqueueToCentralQueue(std::move(task), fallbackToken);
+    } else {
+      DISPENSO_VERIF_HOOK("pool.push.ring", this, 1, ring);
     }
   }
 #endif
@@ -881,6 +906,7 @@ DISPENSO_INLINE void ThreadPool::scheduleBulkToRingsBatched(
     }
 
     size_t pushed = rings_[ring].try_push_batch(staged, toStage);
+    DISPENSO_VERIF_HOOK("pool.push.ring", this, pushed, ring);
 
     for (size_t j = pushed; j < toStage; ++j) {
       enqueueToCentralQueue(std::move(staged[j]), fallbackToken);
@@ -904,6 +930,7 @@ void ThreadPool::scheduleBulkToRings(
   assert(count <= numRings_.load(std::memory_order_relaxed));
 
   workRemaining_.fetch_add(static_cast<ssize_t>(count), std::memory_order_release);
+  DISPENSO_VERIF_HOOK("pool.count", this, count, 0);
 
   // Acquire: see tryExecuteNextFromRings. Pairs with the release store in
   // resizeLocked so we observe the freshly-constructed rings, not merely the
@@ -966,6 +993,7 @@ void ThreadPool::scheduleBulkEnqueue(
 
   // Single atomic update + bulk enqueue
   workRemaining_.fetch_add(static_cast<ssize_t>(count), std::memory_order_release);
+  DISPENSO_VERIF_HOOK("pool.count", this, count, 0);
 
   DISPENSO_TSAN_ANNOTATE_IGNORE_WRITES_BEGIN();
   bool enqueued;
@@ -977,12 +1005,14 @@ void ThreadPool::scheduleBulkEnqueue(
   DISPENSO_TSAN_ANNOTATE_IGNORE_WRITES_END();
   if (DISPENSO_EXPECT(!enqueued, false)) {
     workRemaining_.fetch_sub(static_cast<ssize_t>(count), std::memory_order_relaxed);
+    DISPENSO_VERIF_HOOK("pool.count", this, -static_cast<ssize_t>(count), 0);
 #if defined(__cpp_exceptions)
     throw std::bad_alloc();
 #else
     std::abort();
 #endif
   }
+  DISPENSO_VERIF_HOOK("pool.push.central", this, count, 0);
   // Mark queue as possibly-non-empty so spinning workers will try_dequeue.
   centralQueueNonEmpty_.store(true, std::memory_order_relaxed);
 
@@ -1027,6 +1057,7 @@ void ThreadPool::scheduleBulkImpl(size_t count, Generator&& gen) {
   ssize_t numPool = numThreads_.load(std::memory_order_relaxed);
   if (!numPool) {
     for (size_t i = 0; i < count; ++i) {
+      DISPENSO_VERIF_HOOK("pool.inline0", this, 0, 0);
       gen(i)();
     }
     return;
@@ -1039,6 +1070,7 @@ void ThreadPool::scheduleBulkImpl(size_t count, Generator&& gen) {
     ssize_t curWork = workRemaining_.load(std::memory_order_relaxed);
     ssize_t loadFactor = poolLoadFactor_.load(std::memory_order_relaxed);
     if (curWork > loadFactor) {
+      DISPENSO_VERIF_HOOK("pool.inline", this, 0, 0);
       gen(i)();
       ++i;
     } else {
@@ -1050,6 +1082,7 @@ void ThreadPool::scheduleBulkImpl(size_t count, Generator&& gen) {
       size_t base = i;
       if (kPlaced) {
         workRemaining_.fetch_add(static_cast<ssize_t>(toEnqueue), std::memory_order_release);
+        DISPENSO_VERIF_HOOK("pool.count", this, toEnqueue, 0);
         for (size_t j = 0; j < toEnqueue; ++j) {
           scheduleImplPlaced({gen(base + j)}, nullptr);
         }
